@@ -32,6 +32,9 @@ struct InjectedFault : public std::exception
     explicit InjectedFault(long t) : token(t) {}
     const char* what() const noexcept override { return "vf injected operator fault"; }
 };
+// user code may throw anything: a plain struct and a bare enum value, neither derived from std::exception
+struct PlainFault { long token; };
+enum class FaultCode : long {};
 struct WorkBoundExceeded : public std::exception
 {
     long count;
@@ -45,6 +48,7 @@ struct OpCtl
     long total = 0;          // applications over the object's life
     long fault_at = -1;      // throw InjectedFault at this application index (1-based), -1 = never
     long fault_token = 0;
+    int fault_kind = 0;      // 0: InjectedFault (derived from std::exception), 1: PlainFault, 2: FaultCode
     long limit = -1;         // throw WorkBoundExceeded when count passes it, -1 = unlimited
     bool validate = true;    // check the pointers handed over by the library
     bool poison_out = true;  // fill y_out with NaN before delegating
@@ -67,7 +71,7 @@ struct OpCtl
         if (!have_home) { home_sig = sig; have_home = true; }
         cur_sig = sig;
     }
-    void arm(long k, long token) { fault_at = k; fault_token = token; }
+    void arm(long k, long token, int kind = 0) { fault_at = k; fault_token = token; fault_kind = kind; }
     void disarm() { fault_at = -1; }
 
     template <class Scalar>
@@ -93,7 +97,12 @@ struct OpCtl
         }
         if (between) between(count);
         if (limit >= 0 && count > limit) throw WorkBoundExceeded(count);
-        if (fault_at >= 0 && count == fault_at) throw InjectedFault(fault_token);
+        if (fault_at >= 0 && count == fault_at)
+        {
+            if (fault_kind == 1) throw PlainFault{fault_token};
+            if (fault_kind == 2) throw FaultCode(fault_token);
+            throw InjectedFault(fault_token);
+        }
         if (poison_out && y)
         {
             using Real = decltype(std::abs(Scalar()));
